@@ -21,6 +21,10 @@ pub struct Case {
     pub creds_valid: bool,
     pub outcome: Outcome,
     pub mux_fails: bool,
+    /// the forwarder's authentication step for _udp2 / _icmp: 0 passes, 1 rejects the credentials,
+    /// 2 I/O error, 3 times out, 4 host unreachable
+    #[serde(default)]
+    pub mux_auth: u8,
 }
 
 pub struct ResponseSuite;
@@ -123,6 +127,14 @@ fn expected(c: &Case) -> Expected {
     let is_reserved = RESERVED.contains(&c.authority.as_str());
     if is_reserved && c.method != "CONNECT" {
         return none(502, None);
+    }
+    if is_reserved && c.authority != "_check" && c.mux_auth != 0 {
+        return match c.mux_auth {
+            1 => none(407, None),
+            2 => none(502, Some("300")),
+            3 => none(502, Some("302")),
+            _ => none(502, Some("301")),
+        };
     }
     if is_reserved {
         return match c.authority.as_str() {
@@ -365,6 +377,17 @@ pub fn execute(c: &Case) -> (Obs, Vec<Event>) {
             s.udp_plan = || MuxPlan::Fail(std::io::Error::from(std::io::ErrorKind::AddrNotAvailable));
             s.icmp_plan = || MuxPlan::NotConfigured;
         }
+        {
+            use trusttunnel::verif::session::ConnErrView;
+            let s = std::sync::Arc::get_mut(&mut scripted).unwrap();
+            s.auth_plan = match c.mux_auth {
+                0 => || Ok(()),
+                1 => || Err(ConnErrView::Authentication("upstream rejects the credentials".into())),
+                2 => || Err(ConnErrView::Io(std::io::Error::from(std::io::ErrorKind::ConnectionRefused))),
+                3 => || Err(ConnErrView::Timeout),
+                _ => || Err(ConnErrView::HostUnreachable),
+            };
+        }
         let _guard = scripted.install(&world);
         let req = request_of(c);
         let wait = Duration::from_millis(ESTABLISHMENT_MS + 5000);
@@ -385,7 +408,7 @@ impl Suite for ResponseSuite {
         "final-response"
     }
     fn rule(&self) -> String {
-        "method x authority (reserved names, look-alikes differing by case/suffix with and without port, host:port, host without port, IPv4/IPv6 literals) x credentials valid/invalid x scripted outcome of the outbound attempt (success, refused, unreachable, timed out, never completes, policy refusal loopback/non-routable, resolver failure, EMFILE, other, delayed success) x {HTTP/1.1, HTTP/2} served in memory by the real Tunnel + HttpDownstream + codecs under a paused clock; oracle = table from PROTOCOL.md and the property statement (status, X-Warning code, offending host, exactly one response, forwarder calls, time of the response); non-trivial = failure outcome or reserved/look-alike authority".into()
+        "method x authority (reserved names, look-alikes differing by case/suffix with and without port, host:port, host without port, IPv4/IPv6 literals) x credentials valid/invalid x scripted outcome of the outbound attempt (success, refused, unreachable, timed out, never completes, policy refusal loopback/non-routable, resolver failure, EMFILE, other, delayed success) x outcome of the forwarder's authentication step for _udp2 / _icmp (passes, credentials rejected, I/O error, timed out, unreachable) x {HTTP/1.1, HTTP/2} served in memory by the real Tunnel + HttpDownstream + codecs under a paused clock; oracle = table from PROTOCOL.md and the property statement (status, X-Warning code, offending host, exactly one response, forwarder calls, time of the response); non-trivial = failure outcome or reserved/look-alike authority".into()
     }
     fn strategy(&self, _: Tier) -> BoxedStrategy<Case> {
         (
@@ -395,8 +418,9 @@ impl Suite for ResponseSuite {
             prop_oneof![5 => Just(true), 1 => Just(false)],
             outcome_strategy(),
             prop_oneof![4 => Just(false), 1 => Just(true)],
+            prop_oneof![3 => Just(0u8), 1 => 1u8..=4],
         )
-            .prop_map(|(h2, method, (kind, authority), creds_valid, outcome, mux_fails)| {
+            .prop_map(|(h2, method, (kind, authority), creds_valid, outcome, mux_fails, mux_auth)| {
                 let method = if kind == "reserved" { method } else { "CONNECT" };
                 Case {
                     h2,
@@ -406,6 +430,7 @@ impl Suite for ResponseSuite {
                     creds_valid,
                     outcome,
                     mux_fails,
+                    mux_auth,
                 }
             })
             .boxed()
@@ -428,6 +453,9 @@ impl Suite for ResponseSuite {
         if !c.creds_valid {
             v.push("invalid-credentials");
         }
+        if c.mux_auth != 0 && c.creds_valid && c.method == "CONNECT" && (c.authority == "_udp2" || c.authority == "_icmp") {
+            v.push("multiplexer-authentication-fails");
+        }
         v.push(if c.h2 { "h2" } else { "h1" });
         if failure || c.kind == "reserved" || c.kind.starts_with("lookalike") {
             v.push("nontrivial");
@@ -435,7 +463,7 @@ impl Suite for ResponseSuite {
         v
     }
     fn required_classes(&self) -> Vec<&'static str> {
-        vec!["nontrivial", "reserved", "lookalike", "failure-outcome", "h1", "h2"]
+        vec!["nontrivial", "reserved", "lookalike", "failure-outcome", "h1", "h2", "multiplexer-authentication-fails"]
     }
     fn check(&self, c: &Case) -> Verdict {
         let (obs, events) = execute(c);
